@@ -1,8 +1,11 @@
-"""C05: connection-level check (see DESIGN section 6 / C05): scenario families on the real endpoints, recorded traces
-validated against RSocket.tla by TLC; design-level model checking of the same monitors in RSocketMC.tla."""
-from . import conn, families, mc
+"""C05: (1) Mux.tla - the send queue discipline and the peer's reassembly cache - model-checked exhaustively (safety and
+liveness) and its complete state graph replayed transition by transition on the real sender code (vf/props/mux.py);
+(2) connection level (see DESIGN section 6 / C05): scenario families on the real endpoints, recorded traces validated against
+RSocket.tla by TLC; design-level model checking of the same monitors in RSocketMC.tla."""
+from . import conn, families, mc, mux
 
 
 def run(v):
+    mux.check(v)
     mc.run_for(v, 'C05')
     conn.check(v, 'C05', families.FAMILIES['C05'])
